@@ -298,6 +298,9 @@ type Config struct {
 	NonStrict bool `json:"non_strict,omitempty"` // StrictAdsSelector(false)
 	FilterIPs bool `json:"filter_ips,omitempty"` // RecvAnnounce(.., announce.WithFilterIPs(true)): loopback addresses are dropped from announcements
 	Trusted   bool `json:"trusted,omitempty"`    // the subscriber's link system has TrustedStorage = true (no hashing on load)
+	// GeneralHook: the block hook is the library's own dagsync.MakeGeneralBlockHook (its
+	// prevAdCid callback fails at the hook call that is to fail) instead of the harness's
+	GeneralHook bool `json:"general_hook,omitempty"`
 }
 
 // Op is one sync of a history.
@@ -435,11 +438,22 @@ func (w *World) NewRun(cfg Config) *Run {
 		if cancelNow != nil {
 			cancelNow()
 		}
-		// nominate the previous advertisement, as MakeGeneralBlockHook does
 		prev := cid.Undef
 		if q := w.pos[c]; q > 1 {
 			prev = w.Chain[q-2]
 		}
+		if cfg.GeneralHook {
+			// the library's own hook decides what to tell the sync: its callback "loads the
+			// advertisement" and reports its previous one, or fails
+			dagsync.MakeGeneralBlockHook(func(cid.Cid) (cid.Cid, error) {
+				if fail {
+					return cid.Undef, errors.New("cannot load the advertisement")
+				}
+				return prev, nil
+			})(p, c, act)
+			return
+		}
+		// nominate the previous advertisement, as MakeGeneralBlockHook does
 		act.SetNextSyncCid(prev)
 		if fail {
 			act.FailSync(errors.New("hook says no"))
